@@ -85,6 +85,10 @@ func (p *prefixedReadSeekCloser) Seek(offset int64, whence int) (int64, error) {
 	if err != nil {
 		return 0, fmt.Errorf("seeking bytes: %w", err)
 	}
+	if offset == skipBytes {
+		// nothing to skip in rest, which may be not seekable at all (nopReadCloser)
+		return 0, nil
+	}
 
 	return p.rest.Seek(offset-skipBytes, whence)
 }
